@@ -183,7 +183,22 @@ def run(ctx):
         if why and nrep < 4:
             nrep += 1
             ctx.report("%s/case" % meta[0], why, {"case": cl, "inputs": [repr(x) for x in meta[1:]], "c_output": c_out[i]})
-    ctx.count(evaluations=len(cases), nontrivial=len(set(c[0] for c in cases if len(c[0].split()) > 3)))
+    # a fixed probe of the low pass with the STRICT statement of the property (no rounding tolerance): 340 samples of the constant 13
+    # from a zero state with alpha = 0.1.  The exact hull statement is refuted for binary64 (C16_b64_lpf_hull_refuted): the output
+    # passes 13 by one unit in the last place; listed as an open finding, the enlarged hull (C16_b64_lpf_hull_enlarged) is what holds
+    probe = "lpf " + " ".join(fcorr.argbits(v) for v in [0.1] + [13.0] * 340)
+    pr_out = fcorr.run_c(cbin, [probe])[0]
+    ys = [fcorr.fval(b) for b in pr_out]
+    over = [(k, y) for k, y in enumerate(ys) if not (0.0 <= y <= 13.0)]
+    if over:
+        k, y = over[0]
+        ctx.report("a_lpf_iter/hull-one-ulp",
+                   "a_lpf_iter with alpha = 0.1 fed the constant 13.0 from a zero state returns %r at step %d: outside the range [0, 13] of the "
+                   "values fed so far by %g (one unit in the last place; the two rounded products of `output *= 1 - alpha; output += x * alpha` "
+                   "do not add up to a convex combination exactly)" % (y, k, y - 13.0),
+                   {"alpha": "0.1", "input": "13.0 repeated", "first_step_outside": k, "value": repr(y)})
+    ctx.cov["lpf_strict_hull_probe_steps_outside"] = len(over)
+    ctx.count(evaluations=len(cases) + 1, nontrivial=len(set(c[0] for c in cases if len(c[0].split()) > 3)))
     ctx.cov["rule"] = ("tf: orders 0..8 x 0..8, sequences of 1..30 samples, integer-valued (exact reference) and real-valued data, "
                        "optional a_tf_zero at a random step; lpf/hpf: alpha in {0,1,.5,random,tiny}, random and constant inputs; "
                        "gen: log grid fc*ts = 1e-12..1e12; distinct = distinct case lines with more than 2 arguments")
